@@ -69,6 +69,14 @@ var vfC04Prefixes = func() (ps []netip.Prefix) {
 	return ps
 }()
 
+// vfC04LeaseOnlyMACs are link-layer addresses of lengths no client identifier
+// can have.
+var vfC04LeaseOnlyMACs = [][]byte{
+	{0x02, 0x00, 0x5e, 0x00, 0x53, 0x01, 0x77},
+	{0x02},
+	{0x02, 0x00, 0x5e, 0x10, 0, 0, 0, 1, 2, 3, 4, 5, 6, 7, 8, 9},
+}
+
 var vfC04MACs = func() (ms [][]byte) {
 	for _, s := range []string{
 		"02005e005301", "02005e005302", "02005e005303", "02005e0053ff",
@@ -642,7 +650,10 @@ func (mc *vfC04Machine) actDHCP(t *rapid.T) {
 	if len(used) > 0 && rapid.IntRange(0, 3).Draw(t, "lease_used_mac") != 0 {
 		mac = rapid.SampledFrom(used).Draw(t, "lease_mac_used")
 	} else {
-		mac = rapid.SampledFrom(vfC04MACs).Draw(t, "lease_mac")
+		// a lease carries whatever link-layer address the DHCP client
+		// reported (DHCPv6 takes it from the DUID, at any length): such an
+		// address belongs to no client
+		mac = rapid.SampledFrom(append(append([][]byte{}, vfC04MACs...), vfC04LeaseOnlyMACs...)).Draw(t, "lease_mac")
 	}
 	mc.sys.setLease(addr, mac)
 	mc.log(t, "lease(%s) = %x", addr, mac)
